@@ -48,7 +48,7 @@ class D(RenderDriver):
         ("picosvg.svg_types", "SVGShape.might_paint"),
     )
     nt_floor = {"quick": 150, "thorough": 4000}
-    feature_floors = {"prop_attr": 300, "prop_style": 200, "prop_both": 100, "translucent_group_overlap": 100, "nested_translucent": 30, "use": 100, "root_paint": 50}
+    feature_floors = {"judged.prop_attr": 900, "judged.prop_style": 550, "judged.prop_both": 380, "judged.translucent_group_overlap": 140, "judged.nested_translucent": 50, "judged.nested_translucent_with_sibling": 30, "judged.use": 70, "judged.root_paint": 45, "judged.opacity_out_of_range": 35, "prop_attr": 300, "prop_style": 200, "prop_both": 100, "translucent_group_overlap": 100, "nested_translucent": 30, "use": 100, "root_paint": 50}
 
     def gen_doc(self, rng):
         k = rng.random()
